@@ -247,6 +247,8 @@ impl SecondaryStorage {
             .commit_changes(vec![EpochOp::CreateTable(entry.clone())])
             .await?;
 
+        #[cfg(risinglight_verif)]
+        crate::verif::gate("ddl.create.persisted").await;
         // then apply to catalog
         self.apply_create_table(&entry)?;
 
@@ -283,6 +285,8 @@ impl SecondaryStorage {
         // contrary to create table, we first modify the catalog
         self.apply_drop_table(&entry)?;
 
+        #[cfg(risinglight_verif)]
+        crate::verif::gate("ddl.drop.applied").await;
         changeset.push(EpochOp::DropTable(entry));
 
         let pin_version = self.version.pin();
@@ -309,6 +313,8 @@ impl SecondaryStorage {
             }
         }
 
+        #[cfg(risinglight_verif)]
+        crate::verif::gate("ddl.drop.before_commit").await;
         // and then persist to manifest
         self.version.commit_changes(changeset).await?;
 
